@@ -69,6 +69,9 @@ C10T = [("Mc.Props.C10", "Mc.C10." + t) for t in ["C10_never_add_when_deleting",
 C19T = [("Mc.Props.C19", "Mc.C19." + t) for t in ["C19_success_status", "C19_304_body", "C19_304_body_all_schedules", "C19_429", "C19_retry_table",
         "C19_other_status_error", "C19_304_needs_inm", "C19_strict_table", "C19_plain_cache_untouched", "run_inv"]]
 
+# regenerated inventory of the API error kinds the sync paths classify (no tolerance in manageRevisions / the finalizer manager)
+INVT = [("Mc.Props.C12Inventory", "Mc.C12.C12_tolerated_inventory")]
+
 C03T = [("Mc.Props.C03", "Mc.C03.C03_key_format_core"), ("Mc.Props.C03", "Mc.C03.C03_key_format_group"), ("Mc.Props.C03", "Mc.C03.C03_key_injective"), ("Mc.Props.C03", "Mc.C03.C03_inner_key_qualified"), ("Mc.Props.C03", "Mc.C03.C03_inner_key_plain"), ("Mc.Props.C03", "Mc.C03.C03_inner_key_iff"), ("Mc.Props.C03", "Mc.C03.C03_groups_total"), ("Mc.Props.C03", "Mc.C03.C03_groups_total_json"), ("Mc.Props.C03", "Mc.C03.C03_attachment_groups_total"), ("Mc.Props.C03", "Mc.C03.C03_claim_step"), ("Mc.Props.C03", "Mc.C03.C03_claim_groups_total"), ("Mc.Props.C03", "Mc.C03.C03_convert_namespace"), ("Mc.Props.C03", "Mc.C03.C03_convert_sound"), ("Mc.Props.C03", "Mc.C03.C03_convert_complete"), ("Mc.Props.C03", "Mc.C03.C03_convert_cluster"), ("Mc.Props.C03", "Mc.C03.C03_namespace_default")]
 C07T = [("Mc.Props.C07", "Mc.C07.C07_gate"), ("Mc.Props.C07", "Mc.C07.C07_child_happy"), ("Mc.Props.C07", "Mc.C07.C07_wait"), ("Mc.Props.C07", "Mc.C07.C07_complete"), ("Mc.Props.C07", "Mc.C07.C07_complete_forall"), ("Mc.Props.C07", "Mc.C07.C07_progress"), ("Mc.Props.C07", "Mc.C07.C07_hook_order"), ("Mc.Props.C07", "Mc.C07.C07_hook_order_first"), ("Mc.Props.C07", "Mc.C07.C07_one_move"), ("Mc.Props.C07", "Mc.C07.C07_one_move_latest"), ("Mc.Props.C07", "Mc.C07.C07_one_name"), ("Mc.Props.C07", "Mc.C07.C07_condition"), ("Mc.Props.C07", "Mc.C07.C07_condition_exact"), ("Mc.Props.C07", "Mc.C07.C07_condition_error"), ("Mc.Props.C07", "Mc.C07.C07_claims_filtered"), ("Mc.Props.C07", "Mc.C07.C07_claims_general"), ("Mc.Props.C07", "Mc.C07.C07_claims_complete"), ("Mc.Props.C07", "Mc.C07.C07_claims_wins")]
 C09T = [("Mc.Props.C09", "Mc.C09.C09_tail_no_revision_write"), ("Mc.Props.C09", "Mc.C09.C09_head_no_child_mutation_claim"), ("Mc.Props.C09", "Mc.C09.C09_head_no_child_mutation_related"), ("Mc.Props.C09", "Mc.C09.C09_head_no_child_mutation_revisions"), ("Mc.Props.C09", "Mc.C09.C09_head_no_child_mutation"), ("Mc.Props.C09", "Mc.C09.C09_order"), ("Mc.Props.C09", "Mc.C09.C09_order_full"), ("Mc.Props.C09", "Mc.C09.C09_manageRevisions_failed_write_stops"), ("Mc.Props.C09", "Mc.C09.C09_failed_revision_write_stops_partial"), ("Mc.Props.C09", "Mc.C09.C09_failed_revision_write_stops_children"), ("Mc.Props.C09", "Mc.C09.C09_failed_revision_write_stops")]
@@ -137,7 +140,7 @@ PROPS = {
     "C03": sync_prop(C03T, ["hook-sync", "hook-finalize"],
                      "non-trivial = a sync or finalize hook was called (its children map is compared with the owned set computed from the cache snapshot)" + RULE_INTERLEAVE, ["hook", "claim"],
                      extra_streams=[rounds("interleave", 600, 6000, ["hook-sync", "hook-finalize"])]),
-    "C09": sync_prop(C09T, ["create-revision", "update-revision", "delete-revision"],
+    "C09": sync_prop(C09T + INVT, ["create-revision", "update-revision", "delete-revision"],
                      "non-trivial = a ControllerRevision was written in the sync" + RULE_ROUNDS, ["revisions", "children"],
                      extra_streams=[rounds("crash", 60, 360, ["rounds-crash", "create-revision", "update-revision", "delete-revision"])]),
     "C07": sync_prop(C07T, ["update-revision", "create-revision", "delete-revision"],
@@ -209,7 +212,7 @@ PROPS = {
                                                                    rounds("malformed", 800, 8000, ["hook-customize"])]),
     "C16": sync_prop(C16T, ["update-parent", "updateStatus-parent"],
                      "non-trivial = the decorated object was written (decorator traces); composite traces are not judged", ["parent", "status", "hook"]),
-    "C12": sync_prop(C12T + [("Mc.Props.C12Inventory", "Mc.C12.C12_tolerated_inventory")], ["failed-create", "failed-update", "failed-delete", "failed-updateStatus", "outcome-error"],
+    "C12": sync_prop(C12T + INVT, ["failed-create", "failed-update", "failed-delete", "failed-updateStatus", "outcome-error"],
                      "non-trivial = some request failed or the sync reported an error" + RULE_ROUNDS, ["outcome", "children", "status", "claim", "revisions", "finalizer", "parent"],
                      extra_streams=[rounds("faults", 96, 960, ["rounds-faults", "failed-create", "failed-update", "failed-delete", "failed-updateStatus", "outcome-error"]),
                                     rounds("malformed", 800, 8000, ["outcome-error", "hook-sync", "hook-finalize"]),
@@ -219,7 +222,7 @@ PROPS = {
                      "non-trivial = a hook was called; malformed stream: the scripted hook answer with one value at a random path replaced by every JSON type, "
                      "truncated / non-object / null bodies and non-200 codes", ["outcome", "hook", "children"],
                      extra_streams=[rounds("malformed", 800, 8000, ["outcome-error", "hook-sync", "hook-finalize"])]),
-    "C10": sync_prop(C10T + C10ST + ATOMT + [("Mc.Props.AtomicSem", "Mc.Atomic.C10_finalizer_edit_on_live")], ["update-parent", "hook-finalize", "create-child"],
+    "C10": sync_prop(C10T + C10ST + ATOMT + INVT + [("Mc.Props.AtomicSem", "Mc.Atomic.C10_finalizer_edit_on_live")], ["update-parent", "hook-finalize", "create-child"],
                      "non-trivial = the parent was edited, the finalize hook called, or a child created" + RULE_ROUNDS + RULE_INTERLEAVE, ["finalizer", "parent", "hook", "children", "apimodel"],
                      extra_streams=[rounds("interleave", 600, 6000, ["update-parent", "hook-finalize", "create-child", "failed-update"]),
                                     rounds("faults", 96, 960, ["update-parent", "hook-finalize", "create-child", "failed-update"]),
